@@ -893,8 +893,11 @@ class XsdElement(XsdComponent, ParticleMixin,
                 if not counter.enabled:
                     continue
 
-            if counter.elements is None:
-                # Apply selector on Element ancestor for obtain the selected elements
+            if counter.elements is None or \
+                    obj not in counter.elements and context.source.is_lazy():
+                # Apply selector on Element ancestor for obtain the selected elements.
+                # A lazy source is not fully loaded: elements parsed after the first
+                # selection are missing, so the selection has to be refreshed.
                 root_node = context.source.get_xpath_node(counter.elem)
                 xpath_context = XPathContext(root_node)
                 assert identity.selector is not None
